@@ -64,6 +64,8 @@ pub fn witness(sc: &Scenario, src: &str, cfg: &SchedCfg, sim: &Sim) -> serde_jso
 
 pub fn check(rep: &Report) {
     let quick = rep.quick();
+    // shared-await templates (several awaiters of one target, finished / failed / heap-result targets)
+    crate::c04::check_await_templates(rep, "C03", if quick { 40 } else { 1000 }, if quick { 24 } else { 60 });
     let n_scen = if quick { 4000 } else { 60000 };
     let n_sched = if quick { 30 } else { 120 };
     let b = qv::builtins();
